@@ -24,6 +24,7 @@ type histRec struct {
 	Kind     string `json:"kind"`
 	Size     string `json:"size"`
 	Step     string `json:"step"`
+	Prev     string `json:"prev"` // the file this process validated immediately before (possibly the end of the previous history)
 	Tampered bool   `json:"tampered"`
 	MayClaim bool   `json:"mayclaim"`
 	Off      int    `json:"off"`
@@ -103,6 +104,7 @@ func runC27Hist() {
 	w := h.NewW(h.Arg("--out"))
 	t0 := time.Now()
 	steps, tampered, large := 0, 0, 0
+	prev := "nothing"
 	for hid, c := range cases {
 		k := c.Kind + "/" + c.Size
 		fx := fxs[k]
@@ -120,7 +122,7 @@ func runC27Hist() {
 				h.Die("bad step %q", st)
 			}
 			s := d.Sigs[0]
-			r := histRec{HID: hid + 1, Idx: i + 1, Kind: c.Kind, Size: c.Size, Step: st, Tampered: st[0] == 't', MayClaim: c.MayClaim[i],
+			r := histRec{HID: hid + 1, Idx: i + 1, Kind: c.Kind, Size: c.Size, Step: st, Prev: prev, Tampered: st[0] == 't', MayClaim: c.MayClaim[i],
 				A: s.BR[0], B: s.BR[1], C: s.BR[2], D: s.BR[3], F: len(d.Bytes), GapLo: s.GapLo, GapHi: s.GapHi}
 			b := d.Bytes
 			if r.Tampered {
@@ -132,6 +134,7 @@ func runC27Hist() {
 			v := e.verdictFor(b, true, s.Key)
 			r.Status, r.Reason, r.DocMod = v.Status, v.Reason, v.DocMod
 			w.Put(r)
+			prev = c.Kind + "/" + c.Size + "/" + st
 			steps++
 			if c.Size == "large" {
 				large++
